@@ -1,13 +1,13 @@
 (* Extraction of the C10 model (Builder/Model.v), its layout specification
-   (Builder/Spec.v) and the wire reference decoder of C03 to OCaml.
+   (Builder/Spec.v, expected_x of Builder/SpecX.v) and the wire reference decoder of C03 to OCaml.
    ExtrOcamlBasic only; N / positive / nat stay the extracted inductive types. *)
 From EP Require Import Base.Bytes Checksum.Spec Checksum.Model Parse.Types Parse.View Parse.WireSpec
-  Builder.Model Builder.Spec.
+  Builder.Model Builder.Spec Builder.SpecX.
 From Coq Require Import Extraction ExtrOcamlBasic.
 Extraction Language OCaml.
 Extraction "m_c10.ml"
   N.add N.mul N.of_nat len
   build_run final_size write_to_slice
-  expected parse_pre off_net off_transport off_payload
+  expected parse_pre expected_x payload_admitted off_net off_transport off_payload
   wire_ethernet wire_linux_sll wire_from_ip
   rfc1071 folds_to_ffff.
